@@ -388,12 +388,13 @@ func (x *TopicsIndex) InlineUnsubscribe(id int, filter string) bool {
 		return false
 	}
 
+	_, existed := particle.inlineSubscriptions.Get(id)
 	particle.inlineSubscriptions.Delete(id)
 
 	if particle.inlineSubscriptions.Len() == 0 {
 		x.trim(particle)
 	}
-	return true
+	return existed
 }
 
 // Subscribe adds a new subscription for a client to a topic filter, returning
